@@ -17,6 +17,8 @@ def check(ctx):
     ctx.guard(r065_losses, ctx)
     ctx.guard(r066_loss_moment_wiring, ctx)
     ctx.guard(_shared_c06, ctx)
+    from .c07 import r076_no_foreign_updates
+    ctx.guard(r076_no_foreign_updates, ctx, "R06.8")
 
 # ----------------------------------------------------------------------------- R06.1
 
